@@ -82,6 +82,9 @@ def cases(tier, rng):
                 yield {'codec': codec, 'chunks': [c.hex() for c in small], 'cuts': [p // 2], 'truncate': p}
     for codec in ('gzip', 'zstd'):
         yield {'codec': codec, 'chunks': ['6162', '636465'], 'cuts': [3], 'truncate': None, 'twice': True}
+        # one operator object, two subscriptions alive at the same time with interleaved chunks
+        for mode in ('before', 'mid'):
+            yield {'codec': codec, 'chunks': ['6162', '636465', '66' * 300], 'cuts': [3, 9], 'truncate': None, 'twin': mode}
     n = {'quick': 150, 'thorough': 2000, 'search': 200}[tier]
     for _ in range(n):
         codec = rng.choice(['gzip', 'zstd'])
@@ -92,11 +95,16 @@ def cases(tier, rng):
         cuts = sorted(rng.randrange(0, lim + 1) for _ in range(rng.choice([0, 1, 2, 3, 8])))
         if rng.random() < 0.2 and trunc is None:
             cuts = cuts + [lim]            # trailing empty chunk after the end of the stream
-        yield {'codec': codec, 'chunks': [c.hex() for c in chunks], 'cuts': cuts, 'truncate': trunc, 'twice': rng.random() < 0.15}
+        yield {'codec': codec, 'chunks': [c.hex() for c in chunks], 'cuts': cuts, 'truncate': trunc, 'twice': rng.random() < 0.15,
+               'twin': rng.choice([None, None, None, None, 'before', 'mid'])}
 
 
-def compress_real(codec, chunks):
-    r = drive_plain([MOD[codec].compress()], chunks)
+TWIN_PLAIN = [b'twin ' * 40, b'', b'\x00\x01\x02' * 33, b'another subscription of the same operator']
+
+
+def compress_real(codec, chunks, twin=None):
+    r = (drive_plain([MOD[codec].compress()], chunks, twin=list(TWIN_PLAIN), twin_mode=twin) if twin
+         else drive_plain([MOD[codec].compress()], chunks))
     out = [bytes(x) for s in r['steps'] for x in s] + [bytes(x) for x in r['fin']]
     return b''.join(out), r, out
 
@@ -126,7 +134,7 @@ def _cuts(case, z):
 def real(case):
     codec = case['codec']
     chunks = [_chunk(c) for c in case['chunks']]
-    z, rc, _ = compress_real(codec, chunks)
+    z, rc, _ = compress_real(codec, chunks, twin=case.get('twin'))
     if case['truncate'] == 'last':
         case = dict(case, truncate=len(z) - 3)
     zz = z if case['truncate'] is None else z[:case['truncate']]
@@ -158,6 +166,10 @@ def real(case):
                       on_completed=lambda: st.update(end='completed'))
         rd = {'steps': [[o] for o in out[:-1]] if st['end'] == 'completed' else [[o] for o in out],
               'fin': out[-1:] if st['end'] == 'completed' else [], 'end': st['end']}
+    elif case.get('twin'):
+        # the same decompress operator object applied to a second source that is live at the same time
+        tz = compress_real(codec, TWIN_PLAIN)[0]
+        rd = drive_plain([MOD[codec].decompress()], pieces, twin=cut(tz, [len(tz) // 3, 2 * len(tz) // 3]), twin_mode=case['twin'])
     else:
         rd = drive_plain([MOD[codec].decompress()], pieces)
     return {'z': z.hex(), 'c_events': _events(rc), 'd_events': _events(rd), 'pieces': [p.hex() for p in pieces]}
